@@ -210,6 +210,14 @@ ExportImport == /\ Rich /\ win = 0
                 /\ UNCHANGED <<sh, cand, win, bags, cur, gbag, counts>>
                 /\ Rec([op |-> "expimp", equal |-> TRUE])
 
+\* c := Import(h.Export()), then the ORIGINAL h goes on being used (n = 0: h.Reset(); n = 1: h.RecordValue(v)) - a
+\* valid sequence of calls: Import's "the caller must stop accessing" is about the Snapshot, not about h.  The
+\* replay continues on the copy c, which is a histogram of its own: every later observation of c (total count,
+\* quantiles, min / max, no invariant panic) is still the one of the recorded data.
+ExportImportDisturb(n, v) == /\ Rich /\ win = 0 /\ n \in {0, 1}
+                             /\ UNCHANGED <<sh, cand, win, bags, cur, gbag, counts>>
+                             /\ Rec([op |-> "expimpd", equal |-> TRUE, n |-> n, v |-> v])
+
 \* e := New(shape); dropped := e.Merge(h): nothing dropped, e Equal h; the replay continues on e
 MergeIntoEmpty == /\ Rich /\ win = 0
                   /\ UNCHANGED <<sh, cand, win, bags, cur, gbag, counts>>
@@ -241,6 +249,7 @@ Step == \/ \E v \in cand : Record(v, 1)
         \/ Mode = "full" /\ \E v \in cand, n \in {2, 3} : Record(v, n)
         \/ Mode = "full" /\ win = 0 /\ \E v \in cand : \E e \in {x \in cand : x < v /\ (v \div x) <= 4} : Corrected(v, e)
         \/ Reset \/ ExportImport \/ MergeIntoEmpty \/ MergeG \/ Rotate
+        \/ ExportImportDisturb(0, 0) \/ (\E v \in cand : ExportImportDisturb(1, v))
         \/ Rich /\ win = 0 /\ \E v \in cand : GRecord(v)
 
 Next == Len(hist) < Depth + 1 /\ Step
